@@ -80,7 +80,9 @@ func readGitConfig(configs ...*git.ConfigurationSource) (gf *GitFetcher, extensi
 
 				extensions[name] = ext
 			} else if len(parts) > 1 && parts[0] == "remote" {
-				if gc.OnlySafeKeys && (len(parts) == 3 && parts[2] != "lfsurl") {
+				// From .lfsconfig only remote.<name>.lfsurl is honoured,
+				// whatever the number of dots in the remote's name.
+				if gc.OnlySafeKeys && (len(parts) < 3 || parts[len(parts)-1] != "lfsurl") {
 					ignored = append(ignored, key)
 					continue
 				}
